@@ -35,3 +35,18 @@ class e2e_determinism:
         # build-directory location, working directory or ninja parallelism
         "same-bytes": lambda result: "error" not in result and result["same"],
     }
+
+
+@contract("nanoemoji.glue_together._copy_cbdt", props=["C12", "C07", "C14"])
+class copy_cbdt_runs:
+    bounded_only = True
+    gen = Y.gen_copy_cbdt
+    native_call = Y.run_copy_cbdt
+    n_quick = 4
+    n_thorough = 24
+    ensures = {
+        # grafting CBDT/CBLC onto a font whose colour glyphs are not one run of glyph ids:
+        # one strike per run, exactly one bitmap per colour glyph (its own), none for others,
+        # and the tables survive compile -> load -> compile
+        "one-bitmap-per-colour-glyph-in-consecutive-runs": lambda glyphs, pngs, result: Y.copy_cbdt_problems(glyphs, pngs, result) == [],
+    }
